@@ -5,6 +5,8 @@ plus the independent plain-list oracle used on the search path.
 """
 import itertools
 
+import c13_types as TY
+
 PID = "C13"
 LEAN_TARGETS = ["SpecVerif.Props.C13"]
 AUDIT = [("SpecVerif.Props.C13", "SpecVerif.Props.C13")]
@@ -54,6 +56,14 @@ REQUIRED_THEOREMS = [
     "SpecVerif.Props.C13.coh_newContainer",
     "SpecVerif.Props.C13.extendFast_sound",
     "SpecVerif.Props.C13.extendFast_unsound",
+    # type parameters KeyedList[T, K] with arbitrary T, K (typedCfg; verdicts fed in by the reference checker)
+    "SpecVerif.Props.C13.typedCfg_okItem",
+    "SpecVerif.Props.C13.stepE_okItem_local",
+    "SpecVerif.Props.C13.valid_items_as_untyped",
+    "SpecVerif.Props.C13.untyped_never_typeError",
+    "SpecVerif.Props.C13.typeError_only_for_wrong_type",
+    "SpecVerif.Props.C13.wrong_type_rejected",
+    "SpecVerif.Props.C13.extend_wrong_type_rejected",
 ]
 RULE = (
     "cases = (universe in {self-keyed str, tuple+key fn, keyed spec class, int-keyed tuple, objects whose == ignores "
@@ -65,7 +75,12 @@ RULE = (
     "PAIR cases: a second KeyedList (own key function: key field / payload / (key+1) mod 3; own type parameters) next to "
     "the first one; every cross operation (extend, +=, +, radd, ==, constructor, extend from a slice, self-extension) in "
     "both directions with the operand handed over as the KeyedList itself / list / tuple / generator / KeyedSet, from "
-    "sampled pairs of containers of <= 2 items (incl. equal and reversed twins), plus random mixed sequences"
+    "sampled pairs of containers of <= 2 items (incl. equal and reversed twins), plus random mixed sequences. "
+    "TYPE PARAMETERS (universe ty): KeyedList[T, K] for 44 item types x 12 key types built from Union / Optional / PEP 604 "
+    "unions / Literal / Dict / Tuple / List / bounded types (c13_types.py) over items of 9 value kinds keyed by str / bytes "
+    "/ None; admissibility on the model and oracle side is the verdict of an independent reference checker on the type "
+    "description; per (T, K) every item of the universe is offered by append / insert / l[i]= / l[k]= / extend / += / the "
+    "constructor, plus pairs with different type parameters and random sequences"
 )
 EXHAUSTIVE = {"quick": False, "thorough": False}
 ASSUMPTIONS = [
@@ -76,11 +91,22 @@ ASSUMPTIONS = [
     "a KeyedList handed to another one as an operand is only ever iterated (or, for ==, read through _list): the model of every "
     "cross operation takes the operand's list and nothing else (stepP_lower, stepP_ignores_operand_index); the tie checks it "
     "with operands keyed by other key functions, with other type parameters and with an index in another order",
+    "universe ty: which items / keys a `KeyedList[T, K]` admits is NOT modelled in Lean (the model takes the two verdicts as "
+    "arbitrary predicates, typedCfg); the harness computes them with its own reference checker TY.ref_check (no check_type, "
+    "no typing introspection) and hands them to the driver as finite sets; `float` admits every real number",
 ]
 
 UNIVERSES = ["self", "tuple", "spec", "intkey", "eqp", "num", "numkey"]
+# "ty": items of nine value kinds (ints, strs, floats, dicts, tuples, lists, negative ints) keyed by str / bytes / None
+# objects, on `KeyedList[T, K]` whose T and K are Union / Optional / Literal / Dict[str, Any] / Tuple / List / bounded
+# types (c13_types.py). `typed` is then the string "<T> :: <K>" instead of True, and WHICH items and keys are admissible is
+# decided by the reference checker `TY.ref_check` on the type description — never by `spec_classes.check_type`.
+# Not part of the exhaustive single-operation sweep (54 items): own systematic generator `ty_cases`, and in the pair,
+# random and search generators.
+TYU = "ty"
+RANDOM_UNIVERSES = UNIVERSES + [TYU, TYU]
 # what Python `==` between two items is, as the driver's eqmode (see Drivers/C13.lean)
-EQMODE = {"self": 0, "tuple": 0, "spec": 0, "intkey": 0, "eqp": 1, "num": 1, "numkey": 2}
+EQMODE = {"self": 0, "tuple": 0, "spec": 0, "intkey": 0, "eqp": 1, "num": 1, "numkey": 2, "ty": 0}
 # "num": numbers keyed by repr; token (k, k // 3, 0) = NUMS[k]; items with the same k // 3 are == but have different keys
 NUMS = [0, 0.0, False, 1, 1.0, True]
 _It = None
@@ -148,6 +174,8 @@ def tok(item):
 
 
 def real_key(u, k):
+    if u == TYU:
+        return TY.key_object(k)
     if u == "intkey":
         return k
     if u == "numkey":
@@ -159,6 +187,8 @@ def real_key(u, k):
 
 def real_item(u, item):
     k, p, b = item
+    if u == TYU:
+        return TY.value(k, p, b)
     if u == "self":
         if b:
             return 1000 * 1 + k * 10 + p  # an int: wrong item (and key) type on KeyedList[str, str]
@@ -215,6 +245,8 @@ def unreal_key(u, k):
 
 
 def _unreal_item(u, obj):
+    if u == TYU:
+        return TY.token(obj)
     if u == "self":
         if isinstance(obj, int):
             return ((obj - 1000) // 10, (obj - 1000) % 10, 1)
@@ -256,6 +288,8 @@ def _unreal_item(u, obj):
 
 
 def _unreal_key(u, k):
+    if u == TYU:
+        return TY.key_token(k)
     if u == "num":
         for i, v in enumerate(NUMS):
             if repr(v) == k:
@@ -282,6 +316,8 @@ def _unreal_key(u, k):
 
 def stored_key(u, k):
     """the key object that universe `u` stores for token key `k` of an admissible item"""
+    if u == TYU:
+        return TY.key_object(k)
     if u in ("intkey", "numkey"):
         return k
     if u == "num":
@@ -301,7 +337,7 @@ def token_key(keymode, it):
 def key_function(u, keymode=0):
     """`key=` argument of a container of universe `u`. Mode 0 is the universe's own key function; modes 1 and 2 key the
     SAME items differently (pure functions of the item; the keys have the universe's key type)."""
-    if keymode:
+    if keymode or u == TYU:
         return lambda obj: stored_key(u, token_key(keymode, _unreal_item(u, obj)))
     if u in ("tuple", "intkey", "numkey"):
         return lambda x: x[0]
@@ -326,15 +362,29 @@ def ok_kinds(u, typed, keymode=0):
     """admissible kinds of a container, as the driver's `okkinds` token"""
     if not typed:
         return "*"
+    if u == TYU:
+        # the verdicts of the two type checks, as finite sets: items admitted by T / keys admitted by K
+        items, keys = TY.verdicts(typed)
+        return "@" + ",".join(tok(x) for x in TY.ITEMS if x in items) + "/" + ",".join(str(k) for k in TY.KEYS if k in keys)
     if keymode == 0:
         return "0"
     return "".join(b for b in "0123" if b not in ITEMBAD[u])
+
+
+def admissible(u, typed, keymode, it):
+    """universe "ty": may item token `it` be in a container with these type parameters and this key function?
+    (reference checker: the item is a T and its key is a K)"""
+    items, keys = TY.verdicts(typed)
+    return tuple(it) in items and token_key(keymode, it) in keys
 
 
 def make_list(u, typed, items=(), keymode=0):
     from spec_classes.types import KeyedList
 
     keyfn = key_function(u, keymode)
+    if typed and u == TYU:
+        td, kd = TY.parse_typed(typed)
+        return KeyedList[TY.build(td), TY.build(kd)](items, key=keyfn)
     if typed:
         from typing import Any
 
@@ -392,7 +442,8 @@ def op_line(op):
 def model_lines(case):
     u, typed = case["universe"], case["typed"]
     head = " ".join(
-        ["new", "1" if typed else "0", "1" if u == "self" else "0", str(EQMODE[u])] + [tok(x) for x in case["init"]]
+        ["new", (ok_kinds(u, typed) if u == TYU else "1") if typed else "0", "1" if u == "self" else "0", str(EQMODE[u])]
+        + [tok(x) for x in case["init"]]
     )
     lines = [head]
     if case.get("other"):
@@ -681,6 +732,8 @@ class _Ref:
         return token_key(self.keymode, it)
 
     def bad(self, it):
+        if self.u == TYU:
+            return bool(self.typed) and not admissible(self.u, self.typed, self.keymode, it)
         return self.kinds != "*" and str(it[2]) not in self.kinds
 
     def dup(self, items):
@@ -1008,6 +1061,8 @@ def token_eq(u, a, b):
 
 
 def universe_items(u, typed):
+    if u == TYU:
+        return side_items(u, typed, 0)
     if u == "self":
         good = [(k, 0, 0) for k in KEYS]
         badl = [(100 + k, 0, 1) for k in (0, 1)] if typed else []
@@ -1027,9 +1082,27 @@ def universe_items(u, typed):
     return good, badl
 
 
+_TY_SIDE = {}
+
+
+def pick_typed(u, rng, p):
+    """type parameters of a random container: False / True, or for "ty" False / a random "<T> :: <K>" """
+    if rng.random() >= p:
+        return False
+    return TY.random_typed(rng) if u == TYU else True
+
+
 def side_items(u, typed, keymode=0):
     """(admissible, inadmissible) items for a container keyed by `keymode`: on a parameterised list that is keyed
     differently, the kinds that only had a wrong KEY type are admissible"""
+    if u == TYU:
+        if not typed:
+            return list(TY.ITEMS), []
+        if (typed, keymode) not in _TY_SIDE:
+            ok = [admissible(u, typed, keymode, x) for x in TY.ITEMS]
+            _TY_SIDE[typed, keymode] = ([x for x, a in zip(TY.ITEMS, ok) if a], [x for x, a in zip(TY.ITEMS, ok) if not a])
+        good, badl = _TY_SIDE[typed, keymode]
+        return list(good), list(badl)
     if not typed or keymode == 0:
         return universe_items(u, typed)
     good, badl = universe_items(u, True)
@@ -1089,15 +1162,21 @@ def pair_cases(tier, rng):
     non-mutating cross operation."""
     npairs, nmut = (8, 8) if tier == "quick" else (60, 10**6)
     muts, reads = cross_mutators(), cross_reads()
-    for u, tm, to, km in pair_configs():
-        ms = side_states(u, tm, 0, 2)
-        os_ = side_states(u, to, km, 2)
+    for u, tm, to, km in pair_configs() + ty_pair_configs(tier, rng):
+        ms = pair_states(u, tm, 0, rng)
+        os_ = pair_states(u, to, km, rng)
         valid_o = {tuple(x) for x in os_}
-        pairs = [(rng.choice(ms), rng.choice(os_)) for _ in range(npairs)]
+        pairs = [(rng.choice(ms), rng.choice(os_)) for _ in range(npairs if u != TYU else npairs // 2)]
         for _ in range(2):
-            m = rng.choice([x for x in ms if len(x) == 2])
+            twos = [x for x in ms if len(x) == 2]
+            if not twos:
+                break
+            m = rng.choice(twos)
             for twin in (list(m), list(reversed(m))):
-                if tuple(twin) in valid_o:
+                if u == TYU:
+                    if all(not to or admissible(u, to, km, x) for x in twin) and len({token_key(km, x) for x in twin}) == 2:
+                        pairs.append((m, twin))
+                elif tuple(twin) in valid_o:
                     pairs.append((m, twin))
         for m, o in pairs:
             prefix = rng.choice([[], [], [["o", "reverse"]], [["reverse"]], [["o", "reverse"], ["reverse"]]])
@@ -1126,14 +1205,20 @@ def random_pair_op(u, P, rng, n):
 
 
 def random_other(u, rng):
-    typed, km = rng.random() < 0.5, rng.choice(KEYMODES)
+    typed, km = pick_typed(u, rng, 0.5), rng.choice(KEYMODES)
     good, _ = side_items(u, typed, km)
     init = []
+    if not good:
+        return {"typed": typed, "keymode": km, "init": init}
     for x in rng.sample(good, rng.randint(0, min(3, len(good)))):
         if token_key(km, x) not in {token_key(km, y) for y in init}:
             init.append(list(x))
     if rng.random() < 0.04:
         init.append(list(rng.choice(good)))  # possibly a duplicate key (under ITS key function) at construction
+    if typed and rng.random() < 0.04:
+        _, badl = side_items(u, typed, km)
+        if badl:
+            init.insert(rng.randint(0, len(init)), list(rng.choice(badl)))  # an inadmissible item at construction
     return {"typed": typed, "keymode": km, "init": init}
 
 
@@ -1176,7 +1261,7 @@ def initial_states(u, maxlen, typed=False):
 
 def random_op(u, typed, rng, n, keymode=0):
     good, badl = side_items(u, typed, keymode)
-    items = good + badl if rng.random() < 0.25 else good
+    items = good + badl if rng.random() < 0.25 or not good else good
     x = lambda: list(rng.choice(items))  # noqa: E731
     i = lambda: rng.randint(-n - 1, n + 1)  # noqa: E731
     k = lambda: rng.choice(universe_keys(u))  # noqa: E731
@@ -1201,11 +1286,147 @@ def random_op(u, typed, rng, n, keymode=0):
     return rng.choice(choices)()
 
 
+# ---------------------------------------------------------------------------
+# universe "ty": type parameters beyond plain classes
+# ---------------------------------------------------------------------------
+
+
+def _ty_keys(cur):
+    return [x[0] for x in cur]
+
+
+def _ty_sim(cur, typed, op):
+    """what a plain list with unique keys holds after `op` (generation aid only: keeps the probes away from
+    IndexError / KeyError so that the type check is what decides; verdicts come from oracle and model)"""
+    adm = lambda x: not typed or admissible(TYU, typed, 0, x)  # noqa: E731
+    name = op[0]
+    if name == "pop":
+        return cur[:-1]
+    if name in ("append", "insert"):
+        x = tuple(op[-1])
+        if adm(x) and x[0] not in _ty_keys(cur):
+            cur = list(cur)
+            cur.insert(len(cur) if name == "append" else max(0, min(len(cur), op[1] + len(cur) if op[1] < 0 else op[1])), x)
+        return cur
+    if name in ("setIdx", "setKey"):
+        x = tuple(op[2])
+        i = op[1] if name == "setIdx" else _ty_keys(cur).index(op[1])
+        if adm(x) and (x[0] == cur[i][0] or x[0] not in _ty_keys(cur)):
+            cur = list(cur)
+            cur[i] = x
+        return cur
+    if name in ("extend", "iadd"):
+        xs = [tuple(x) for x in op[1]]
+        ks = _ty_keys(cur) + [x[0] for x in xs]
+        if all(adm(x) for x in xs) and len(set(ks)) == len(ks):
+            return list(cur) + xs
+        return cur
+    raise ValueError(op)
+
+
+def ty_probe(rng, typed, cur, x, good):
+    """one way of offering item `x` to a container that holds `cur`"""
+    routes = ["append", "insert", "extend", "iadd", "extend2"]
+    if cur:
+        routes += ["setIdx", "setKey", "setIdx"]
+    r = rng.choice(routes)
+    n = len(cur)
+    if r == "append":
+        return ("append", list(x))
+    if r == "insert":
+        return ("insert", rng.randint(-n - 1, n + 1), list(x))
+    if r == "setIdx":
+        return ("setIdx", rng.randint(-n, n - 1), list(x))
+    if r == "setKey":
+        return ("setKey", rng.choice(_ty_keys(cur)), list(x))
+    if r == "extend2" and good:
+        g = list(rng.choice(good))
+        return (rng.choice(("extend", "iadd")), [g, list(x)] if rng.random() < 0.5 else [list(x), g])
+    return ("iadd" if r == "iadd" else "extend", [list(x)])
+
+
+def _distinct(rng, pool, n, keymode=0):
+    out = []
+    for x in rng.sample(pool, min(n, len(pool))):
+        if token_key(keymode, x) not in {token_key(keymode, y) for y in out}:
+            out.append(x)
+    return out
+
+
+def ty_cases(tier, rng):
+    """Universe "ty", systematic part. For every generated pair of type parameters (TY.configs(): every item type with
+    K = Any, every key type with T = Any, every item type once more with a key type that restricts; + the unparameterised
+    container) EVERY item of the universe (9 value kinds x 3 keys x 2 payloads) is offered to the container `reps` times (admissible
+    ones twice as often) by a randomly chosen route — append / insert / `l[i] = x` / `l[k] = x` / extend / += alone or next to an admissible
+    item — from a container holding 0..2 admissible items; and the constructor is called with 1..3 items of any kind."""
+    reps, nctor = (1, 4) if tier == "quick" else (8, 30)
+    for typed in [False] + TY.configs():
+        good, _ = side_items(TYU, typed, 0)
+        hdr = {"universe": TYU, "typed": typed}
+        for _ in range(reps):
+            order, again = list(TY.ITEMS), list(good) if typed else []
+            rng.shuffle(order)
+            rng.shuffle(again)
+            order += again  # every admissible item a second time, by another route
+            for chunk in range(0, len(order), 18):
+                cur = _distinct(rng, good, rng.randint(0, 2))
+                ops, init = [], [list(x) for x in cur]
+                for x in order[chunk : chunk + 18]:
+                    op = ty_probe(rng, typed, cur, x, good)
+                    ops.append(list(op))
+                    cur = _ty_sim(cur, typed, op)
+                    if len(cur) >= 2 or (cur and rng.random() < 0.3):
+                        ops.append(["pop", None])
+                        cur = cur[:-1]
+                yield {**hdr, "init": init, "ops": ops, "origin": "ty-probes"}
+        for _ in range(nctor):
+            pool = good if good and rng.random() < 0.4 else list(TY.ITEMS)
+            init = _distinct(rng, pool, rng.randint(1, 3))
+            if rng.random() < 0.3:
+                init.insert(rng.randint(0, len(init)), rng.choice(TY.ITEMS))  # maybe a duplicate key, maybe inadmissible
+            yield {**hdr, "init": [list(x) for x in init], "ops": [["keys"]], "origin": "ty-ctor"}
+
+
+def ty_pair_configs(tier, rng):
+    """two containers of universe "ty" with DIFFERENT type parameters (or none) and key functions: what the receiver's
+    type check makes of the operand's items"""
+    n = 30 if tier == "quick" else 150
+    cfgs = TY.configs()
+    out = []
+    for i in range(n):
+        tm = rng.choice(cfgs) if i % 5 else False
+        to = rng.choice(cfgs) if i % 3 else False
+        out.append((TYU, tm, to, rng.choice(KEYMODES)))
+    return out
+
+
+def pair_states(u, typed, km, rng):
+    if u != TYU:
+        return side_states(u, typed, km, 2)
+    good, _ = side_items(u, typed, km)
+    return [[]] + [_distinct(rng, good, rng.randint(1, 2), km) for _ in range(12) if good]
+
+
+def ty_tags(case, real):
+    t = []
+    if case["typed"]:
+        td, kd = case["typed"].split(TY.SEP)
+        t += [f"ty:T:{td}", f"ty:K:{kd}"]
+        b = base(case)
+        for i, op in enumerate(case["ops"]):
+            if op[0] in ("append", "insert", "setIdx", "setKey", "extend", "iadd") and i + b < len(real):
+                xs = [op[-1]] if op[0] not in ("extend", "iadd") else op[1]
+                verdict = "admissible" if all(admissible(TYU, case["typed"], 0, x) for x in xs) else "inadmissible"
+                head = real[i + b].split(" ;; ")[0]
+                t.append(f"ty:incoming:{verdict}:{head.replace(' ', ':')}")
+    return t
+
+
 def gen_cases(tier, rng):
     if tier == "search":
         while True:
-            u = rng.choice(UNIVERSES)
-            typed = rng.random() < 0.5
+            u = rng.choice(RANDOM_UNIVERSES)
+            typed = pick_typed(u, rng, 0.5 if u != TYU else 0.85)
             good, _ = universe_items(u, typed)
             init = rng.sample(good, rng.randint(0, min(4, len(good))))
             seen, init2 = set(), []
@@ -1245,21 +1466,21 @@ def gen_cases(tier, rng):
                         "ops": [list(ops[chunk])] + ([["keys"], ["items"]] if chunk % 2 == 0 or tier != "quick" else []),
                         "origin": "exhaustive-single",
                     }
+    yield from ty_cases(tier, rng)
     yield from pair_cases(tier, rng)
     for n_ in range(nrand):
-        u = rng.choice(UNIVERSES)
-        typed = rng.random() < 0.4
-        good, _ = universe_items(u, typed)
+        u = rng.choice(RANDOM_UNIVERSES)
+        typed = pick_typed(u, rng, 0.4 if u != TYU else 0.85)
+        good, badl = universe_items(u, typed)
         init = []
         for x in rng.sample(good, rng.randint(0, min(4, len(good)))):
             if x[0] not in {y[0] for y in init}:
                 init.append(list(x))
-        if rng.random() < 0.05:
+        if good and rng.random() < 0.05:
             init.append(list(rng.choice(good)))  # possibly a duplicate key at construction
-        if typed and rng.random() < 0.1:
+        if typed and badl and rng.random() < 0.1:
             # an inadmissible item at construction, before or after a possible duplicate: the duplicate wins (ValueError
             # from __init__), else the __orig_class__ setter raises (BaseTypeError, reported as TypeError)
-            _, badl = universe_items(u, typed)
             init.insert(rng.randint(0, len(init)), list(rng.choice(badl)))
         if n_ % 3 == 0:
             # two containers: single-container operations on either one interleaved with cross operations
@@ -1297,11 +1518,13 @@ def nontrivial(case, real):
 
 
 def tags(case, real):
-    t = [f"universe:{case['universe']}", f"typed:{case['typed']}", f"origin:{case.get('origin', 'corpus')}"]
+    t = [f"universe:{case['universe']}", f"typed:{bool(case['typed'])}", f"origin:{case.get('origin', 'corpus')}"]
+    if case["universe"] == TYU:
+        t += ty_tags(case, real)
     b = base(case)
     o = case.get("other")
     if o:
-        t.append(f"pair:other-typed:{o['typed']}")
+        t.append(f"pair:other-typed:{bool(o['typed'])}")
         t.append(f"pair:other-keymode:{o['keymode']}")
         t.append("pair:same-type-parameters" if o["typed"] == case["typed"] else "pair:different-type-parameters")
     for i, op in enumerate(case["ops"]):
@@ -1335,7 +1558,7 @@ def tags(case, real):
     return t
 
 MANIFEST_ENTRY = {
-    "level_text": "Lean 4 proof that the KeyedList Impl model (list + insertion-ordered key index, every method of keyed.py and the MutableSequence mixins) keeps the coherence invariant under every operation and operation sequence, refines plain-list semantics with the single uniqueness rule, answers by-key access like a linear scan and is atomic on failure, for any item/key types, any key function and any item-equality relation; the same for TWO containers with unrelated key functions and type parameters and every operation that takes one as the operand of the other (extend, +=, +, ==, construction, extension from a slice or from itself): both stay coherent, failures leave both untouched, the operand is never changed, and nothing of the operand but its items in order reaches the receiver (Python == on items is a parameter of the model: by-key access is proved independent of it, index/remove/count/in/== follow it); the model is tied to /repo on every run by executing the same operation sequences on spec_classes.types.KeyedList and on the model (exhaustive single operations from every small container, every cross operation in both directions from sampled pairs of differently keyed / differently parameterised containers with the operand handed over as KeyedList, list, tuple, generator or KeyedSet, then random sequences) and comparing result, exception class, list and key-index of every container, and of every container an operation returns, after every step.",
+    "level_text": "Lean 4 proof that the KeyedList Impl model (list + insertion-ordered key index, every method of keyed.py and the MutableSequence mixins) keeps the coherence invariant under every operation and operation sequence, refines plain-list semantics with the single uniqueness rule, answers by-key access like a linear scan and is atomic on failure, for any item/key types, any key function and any item-equality relation; the same for TWO containers with unrelated key functions and type parameters and every operation that takes one as the operand of the other (extend, +=, +, ==, construction, extension from a slice or from itself): both stay coherent, failures leave both untouched, the operand is never changed, and nothing of the operand but its items in order reaches the receiver (Python == on items is a parameter of the model: by-key access is proved independent of it, index/remove/count/in/== follow it); the model is tied to /repo on every run by executing the same operation sequences on spec_classes.types.KeyedList and on the model (exhaustive single operations from every small container, every cross operation in both directions from sampled pairs of differently keyed / differently parameterised containers with the operand handed over as KeyedList, list, tuple, generator or KeyedSet, then random sequences) and comparing result, exception class, list and key-index of every container, and of every container an operation returns, after every step. Type parameters: proved for arbitrary verdicts of the two type checks of KeyedList[T, K] that the verdict is consulted for incoming items only, that on admissible items the container is the unparameterised one, that TypeError is raised only for and always for an inadmissible incoming item; tied to the code with T, K ranging over Union / Optional / Literal / Dict / Tuple / List / bounded types, the verdicts supplied by an independent reference checker.",
     "level_note": "Trusted: Lean kernel; axioms propext/Classical.choice/Quot.sound only; the hand-written model and the correspondence harness (7 item universes x typed/untyped, three of them with equal-but-distinct items or keys; second container x 3 key functions x typed/untyped); key functions pure; item equality pure and reflexive. The theorems are about the model; the per-run correspondence is what ties them to the code.",
     "technique": "Lean 4 invariant + refinement proof over a hand-written model; differential correspondence against the real KeyedList",
 }
